@@ -17,8 +17,8 @@ RULE = ("triples of diagrams with 0..N points (N=60 quick, 300 thorough; sizes 0
         "lattice/half/dyadic/decimal/uniform modes with duplicates and diagonal points; every law of the statement is "
         "evaluated for both distances on each triple; non-trivial = at least two of the three diagrams have >= 3 points; "
         "distinct by digest of the triple")
-ASSUMPTIONS = ["laws on the real code are compared with tolerance 1e-9*scale (bottleneck) / 1e-6*scale*(n+1) (Wasserstein: "
-               "sklearn's expanded Euclidean formula leaves ~1e-8*scale between identical points)",
+ASSUMPTIONS = ["laws on the real code are compared with tolerance 1e-9*scale (bottleneck) / 1e-9*scale*(n+1) (Wasserstein; was 1e-6 before the /repo fix of "
+               "sklearn's expanded Euclidean formula, repaired in wasserstein.py)",
                "the theorems are about the specification values; that the code computes them is C01/C02"]
 PROP_FILES = ["PersimVerif/Props/C07.lean", "PersimVerif/Lemmas/MatchingLaws.lean", "PersimVerif/Lemmas/PermEquiv.lean"]
 
@@ -102,7 +102,7 @@ def run(ctx):
             ax, ay, az = A(X), A(Y), A(Z)
             scale = max(common.maxabs(X), common.maxabs(Y), common.maxabs(Z), 1e-300)
             nn = len(X) + len(Y) + len(Z) + 1
-            for name, f, tol in (("bn", bn, 1e-9 * scale), ("ws", ws, 1e-6 * scale * nn)):
+            for name, f, tol in (("bn", bn, 1e-9 * scale), ("ws", ws, 1e-9 * scale * nn)):
                 bad = []
                 dxy, dyx, dyz, dxz = f(ax, ay), f(ay, ax), f(ay, az), f(ax, az)
                 ok = lambda c, what: (ctx.test(name + "." + what, c), bad.append(what) if not c else None)
